@@ -5,6 +5,16 @@ from skv import LibCfg
 from runner import Unit
 
 SHIPPED = LibCfg(name="shipped")   # gcc -O3 -std=c99, -msse2/-mavx2 per file, hooks compiled in but inert
+# the scalar code has word-size / access / byte-order variants that the shipped x86-64 build never compiles; the
+# conformance checks also run them (C12 compares configurations with each other, these compare them with the model)
+W32_PORTABLE = LibCfg(name="w32-bytewise-neutral", defs=["SKINNY_VERIF_64BIT=0", "SKINNY_VERIF_UNALIGNED=0", "SKINNY_VERIF_LITTLE_ENDIAN=0",
+                                                         "SKINNY_VERIF_VEC128_MATH=0", "SKINNY_VERIF_VEC256_MATH=0"])
+W32_LE = LibCfg(name="w32", defs=["SKINNY_VERIF_64BIT=0"])
+
+def with_portable(name, src, tier, q, t, shards=16):
+    return [Unit(name, src, SHIPPED, cases=scale(tier, q, t), shards=shards - 4),
+            Unit(name + "-w32", src, W32_LE, cases=scale(tier, q, t), shards=2 if tier == "quick" else 8),
+            Unit(name + "-w32-portable", src, W32_PORTABLE, cases=scale(tier, q, t), shards=2 if tier == "quick" else 8)]
 
 MODEL_ASSUME = [
     "reference models in harness/ref.hpp are correct transcriptions of the SKINNY / MANTIS specifications "
@@ -36,7 +46,7 @@ def prop(pid, **kw):
 # ----------------------------------------------------------------------------- C05
 prop("C05",
      fuzz=dict(prop=5, workers=8, seconds=120),
-     units=lambda tier: [Unit("c05", "c05.cpp", SHIPPED, cases=scale(tier, 2500, 60000), shards=16)],
+     units=lambda tier: [Unit("c05", "c05.cpp", SHIPPED, cases=scale(tier, 30000, 500000), shards=16)],
      level="exploration",
      rule=("structured CTR programs (init; optional early set_counter; key/tweak set-up; 1-3 segments of "
            "[set_counter]? chunk*) for Skinny-128/64 plain and tweaked and Mantis-5..8 on every back end, compared "
@@ -56,13 +66,13 @@ prop("C05",
 
 # ----------------------------------------------------------------------------- C01 C02 C04
 prop("C01",
-     units=lambda tier: [Unit("c01", "c01.cpp", SHIPPED, cases=scale(tier, 6000, 250000), shards=16)],
+     units=lambda tier: with_portable("c01", "c01.cpp", tier, 60000, 1200000),
      level="exploration",
      rule=("(variant, key of a primary size, 1-4 blocks, direction, buffer placement incl. overlap) through "
            "skinnyN_set_key + skinnyN_ecb_encrypt/decrypt, compared with the table-driven specification model; keys and "
            "blocks from a mixture of uniform / sparse / constant / counting / high-bit byte strings; non-trivial = key is "
            "neither all-zero nor one of the six published vectors; distinct = distinct serialised cases"),
-     assumptions=MODEL_ASSUME + BUILD_ASSUME + ["other compile-time paths are C12's job"],
+     assumptions=MODEL_ASSUME + BUILD_ASSUME + ["besides the shipped build, two builds of the scalar variants (32-bit words; 32-bit words + byte-wise access + byte-order-neutral code, SIMD off) are run against the model; the full configuration matrix is C12's job"],
      technique="property-based testing (rapidcheck): random keys/blocks vs. independent specification model",
      text=("Generated (key, block, variant, direction) cases must equal an independent table-driven SKINNY model that is "
            "itself checked against the six published vectors at start-up. Sampling of a 2^128..2^512 input space; "
@@ -71,7 +81,7 @@ prop("C01",
      design_ref="DESIGN.md#c01")
 
 prop("C02",
-     units=lambda tier: [Unit("c02", "c02.cpp", SHIPPED, cases=scale(tier, 8000, 300000), shards=16)],
+     units=lambda tier: with_portable("c02", "c02.cpp", tier, 80000, 1500000),
      level="exploration",
      rule=("(key, tweak, blocks, rounds 5..8, mode, tweak path in {never set, set_tweak, set_tweak(NULL) after a non-zero "
            "tweak, per-call}) through mantis_set_key / mantis_set_tweak / mantis_ecb_crypt / mantis_ecb_crypt_tweaked vs. "
@@ -85,7 +95,7 @@ prop("C02",
      design_ref="DESIGN.md#c02")
 
 prop("C04",
-     units=lambda tier: [Unit("c04", "c04.cpp", SHIPPED, cases=scale(tier, 2500, 80000), shards=16)],
+     units=lambda tier: with_portable("c04", "c04.cpp", tier, 40000, 600000),
      level="exploration",
      rule=("stateful tweak histories: set_tweaked_key (incl. in-between lengths), set_tweak(bytes of length 1..bs | NULL), "
            "encrypt/decrypt on Skinny128/64TweakedKey_t, and ctr_set_tweaked_key / ctr_set_tweak / set_counter / encrypt on "
@@ -104,7 +114,7 @@ prop("C04",
 # ----------------------------------------------------------------------------- C06
 prop("C06",
      fuzz=dict(prop=6, workers=8, seconds=120),
-     units=lambda tier: [Unit("c06", "c06.cpp", SHIPPED, cases=scale(tier, 2500, 80000), shards=16)],
+     units=lambda tier: [Unit("c06", "c06.cpp", SHIPPED, cases=scale(tier, 30000, 500000), shards=16)],
      level="exploration",
      rule=("unconstrained API histories (3-40 calls: init, valid and invalid key / tweaked-key / tweak / counter calls, data "
            "calls of all sizes, NULL arguments, cleanup, use after cleanup, re-init; parallel: multiples and non-multiples of "
@@ -131,8 +141,8 @@ def asan_unit(name, harness, cases, args=(), shards=16, **kw):
 
 prop("C14",
      fuzz=dict(prop=14, workers=8, seconds=120),
-     units=lambda tier: [Unit("c14", "c14.cpp", SHIPPED, cases=scale(tier, 2000, 60000), shards=12),
-                         asan_unit("c14-asan", "c14.cpp", scale(tier, 700, 20000), args=["--heap", "1"], shards=4 if tier == "quick" else 16)],
+     units=lambda tier: [Unit("c14", "c14.cpp", SHIPPED, cases=scale(tier, 20000, 400000), shards=12),
+                         asan_unit("c14-asan", "c14.cpp", scale(tier, 3000, 80000), args=["--heap", "1"], shards=4 if tier == "quick" else 16)],
      level="exploration",
      rule=("histories on one object (CTR / parallel-ECB of each cipher on each back end; caller-owned Skinny / tweaked / Mantis "
            "schedules) with invalid calls injected at random positions: NULL object, NULL key, key length in {0, bs-1, max+1, "
@@ -163,7 +173,7 @@ def mon_units(name, src, tier, q, t, asan_share=0.3, args=()):
 
 prop("C15",
      fuzz=dict(prop=15, workers=8, seconds=120),
-     units=lambda tier: mon_units("c15", "c15.cpp", tier, 2000, 60000),
+     units=lambda tier: mon_units("c15", "c15.cpp", tier, 15000, 300000),
      level="exploration",
      rule=("multi-object life-cycle histories (1-6 slots of the six object kinds on every back end, 4-60 calls): init, key / "
            "tweak / counter set-up, processing, cleanup, repeated cleanup, cleanup of NULL and of a zeroed never-initialised "
@@ -180,7 +190,7 @@ prop("C15",
      design_ref="DESIGN.md#c15")
 
 prop("C16",
-     units=lambda tier: mon_units("c16", "c16.cpp", tier, 600, 20000),
+     units=lambda tier: mon_units("c16", "c16.cpp", tier, 8000, 150000),
      level="fault_enumeration",
      rule=("fault enumeration: each of the six init functions x each back end (pin) x each allocation request it makes (request "
            "1 is the only one today; request 2 is also tried and must report 'nothing injected') x prior content of the "
@@ -198,7 +208,7 @@ prop("C16",
      design_ref="DESIGN.md#c16")
 
 prop("C17",
-     units=lambda tier: [Unit("c17", ["c17.cpp", "mon_alloc.c"], SHIPPED_MON, cases=scale(tier, 1500, 40000), shards=16)],
+     units=lambda tier: [Unit("c17", ["c17.cpp", "mon_alloc.c"], SHIPPED_MON, cases=scale(tier, 20000, 400000), shards=16)],
      level="exploration",
      rule=("histories that key an object, process data (leaving a partially consumed keystream batch) and end in cleanup, for "
            "every CTR / parallel-ECB kind and back end; at every free() made by the library the monitor inspects the whole "
@@ -214,7 +224,7 @@ prop("C17",
 
 # ----------------------------------------------------------------------------- C03 C07 C10
 prop("C03",
-     units=lambda tier: [Unit("c03", "c03.cpp", SHIPPED, cases=scale(tier, 2500, 80000), shards=16)],
+     units=lambda tier: with_portable("c03", "c03.cpp", tier, 40000, 600000),
      level="exploration",
      rule=("three generators: (a) single-block round trips D(E(x)) = x and E(D(x)) = x on all six SKINNY variants, the four "
            "tweakable ones (after 0-2 tweak changes) and Mantis, incl. overlapping buffers; (b) parallel round trips for 0..29 "
@@ -232,7 +242,7 @@ prop("C03",
      design_ref="DESIGN.md#c03")
 
 prop("C07",
-     units=lambda tier: [Unit("c07", "c07.cpp", SHIPPED, cases=scale(tier, 2500, 100000), shards=16)],
+     units=lambda tier: [Unit("c07", "c07.cpp", SHIPPED, cases=scale(tier, 40000, 600000), shards=16)],
      level="exploration",
      rule=("(cipher, key incl. in-between lengths / Mantis rounds and mode, back end, 1-3 calls with a block count drawn from "
            "0..40, data, Mantis tweak array, in place or not, buffer offsets); oracle = the library's single-block functions "
@@ -255,8 +265,8 @@ def c10_post(cov):
     cov["lengths_not_generated"] = missing[:20]
 
 prop("C10",
-     units=lambda tier: [Unit("c10", "c10.cpp", SHIPPED, cases=scale(tier, 3000, 100000), shards=12),
-                         asan_unit("c10-asan", "c10.cpp", scale(tier, 800, 20000), args=["--heap", "1"], shards=4 if tier == "quick" else 16)],
+     units=lambda tier: [Unit("c10", "c10.cpp", SHIPPED, cases=scale(tier, 40000, 600000), shards=12),
+                         asan_unit("c10-asan", "c10.cpp", scale(tier, 6000, 100000), args=["--heap", "1"], shards=4 if tier == "quick" else 16)],
      level="exploration",
      post_cov=c10_post,
      rule=("key length drawn from 0..3*bs+16 (Mantis 0..40) or a huge value (2^31-1, 2^31, 2^32-1, 0x10000+bs, ...) x entry point "
@@ -285,9 +295,9 @@ NOVEC256 = LibCfg(name="no-vec256", vec256="")
 CLANG_O3 = LibCfg(name="clang-O3", cc="clang")
 
 def c08_units(tier):
-    u = [Unit("c08", "c08.cpp", SHIPPED, cases=scale(tier, 350, 6000), shards=12 if tier == "quick" else 16, wrapper=VG, timeout=3000),
-         Unit("c08-w32", "c08.cpp", W32, cases=scale(tier, 200, 3000), shards=2 if tier == "quick" else 8, wrapper=VG, timeout=3000),
-         Unit("c08-novec256", "c08.cpp", NOVEC256, cases=scale(tier, 200, 3000), shards=2 if tier == "quick" else 8, wrapper=VG, timeout=3000)]
+    u = [Unit("c08", "c08.cpp", SHIPPED, cases=scale(tier, 900, 12000), shards=12 if tier == "quick" else 16, wrapper=VG, timeout=6000),
+         Unit("c08-w32", "c08.cpp", W32, cases=scale(tier, 500, 6000), shards=2 if tier == "quick" else 8, wrapper=VG, timeout=3000),
+         Unit("c08-novec256", "c08.cpp", NOVEC256, cases=scale(tier, 500, 6000), shards=2 if tier == "quick" else 8, wrapper=VG, timeout=3000)]
     if tier == "thorough":
         u += [Unit("c08-nosimd", "c08.cpp", NOSIMD, cases=3000, shards=8, wrapper=VG, timeout=3000),
               Unit("c08-clang", "c08.cpp", CLANG_O3, cases=3000, shards=8, wrapper=VG, timeout=3000)]
@@ -320,9 +330,9 @@ prop("C08",
 VG_EXACT = [x for x in VG if not x.startswith("--partial-loads-ok")] + ["--partial-loads-ok=no"]
 
 def c09_units(tier):
-    return [Unit("c09-memcheck", "c09.cpp", SHIPPED, cases=scale(tier, 350, 6000), shards=8 if tier == "quick" else 16, wrapper=VG_EXACT, args=["--mode", "vg"], timeout=3000),
-            Unit("c09-native", "c09.cpp", SHIPPED, cases=scale(tier, 4000, 100000), shards=4 if tier == "quick" else 16, args=["--mode", "native"]),
-            asan_unit("c09-asan", "c09.cpp", scale(tier, 1500, 40000), args=["--mode", "native", "--heap", "1"], shards=4 if tier == "quick" else 16)]
+    return [Unit("c09-memcheck", "c09.cpp", SHIPPED, cases=scale(tier, 600, 10000), shards=8 if tier == "quick" else 16, wrapper=VG_EXACT, args=["--mode", "vg"], timeout=3000),
+            Unit("c09-native", "c09.cpp", SHIPPED, cases=scale(tier, 25000, 400000), shards=4 if tier == "quick" else 16, args=["--mode", "native"]),
+            asan_unit("c09-asan", "c09.cpp", scale(tier, 6000, 100000), args=["--mode", "native", "--heap", "1"], shards=4 if tier == "quick" else 16)]
 
 prop("C09",
      units=c09_units,
@@ -353,7 +363,7 @@ CLANG_O2 = LibCfg(name="clang-O2", cc="clang", opt="-O2")
 
 def c11_units(tier):
     q = tier == "quick"
-    n_vg = scale(tier, 250, 5000); n_p = scale(tier, 1500, 40000)
+    n_vg = scale(tier, 500, 8000); n_p = scale(tier, 6000, 100000)
     u = [Unit("c11-memcheck-O0", "c11.cpp", GCC_O0, cases=n_vg, shards=6 if q else 16, wrapper=VG, args=["--mode", "vg"]),
          Unit("c11-memcheck-shipped", "c11.cpp", SHIPPED, cases=n_vg, shards=4 if q else 16, wrapper=VG, args=["--mode", "vg"]),
          # same seeds, separate processes (different ASLR), different optimisation levels / compilers: digests must agree
@@ -428,7 +438,7 @@ def c12_units(tier):
         with ThreadPoolExecutor(5) as ex:
             sos = list(ex.map(lambda nc: skv.build_shared(nc[1]), mat))
         return ["--libs", ",".join("%s=%s" % (n, so) for (n, _), so in zip(mat, sos))]
-    return [Unit("c12", "c12.cpp", None, cases=scale(tier, 500, 2500), shards=16, args=libs, timeout=6000)]
+    return [Unit("c12", "c12.cpp", None, cases=scale(tier, 4000, 6000), shards=16, args=libs, timeout=6000)]
 
 prop("C12",
      units=c12_units,
@@ -453,7 +463,7 @@ prop("C12",
 
 # ----------------------------------------------------------------------------- C13 (back-end selection)
 def c13_units(tier):
-    n = scale(tier, 3000, 100000); q = tier == "quick"
+    n = scale(tier, 5000, 120000); q = tier == "quick"
     u = []
     for name, cfg, a in (("", SHIPPED, ["--vec128", "1", "--vec256", "1"]), ("-novec256", NOVEC256, ["--vec128", "1", "--vec256", "0"]),
                          ("-nosimd", NOSIMD, ["--vec128", "0", "--vec256", "0"])):
@@ -490,7 +500,7 @@ TSAN = LibCfg(name="tsan", cc="clang", opt="-O2", cflags=["-fsanitize=thread", "
 TSAN_ENV = {"TSAN_OPTIONS": "halt_on_error=0:report_signal_unsafe=0:exitcode=0:history_size=4"}
 
 prop("C18",
-     units=lambda tier: [Unit("c18", "c18.cpp", TSAN, cases=scale(tier, 150, 4000), shards=8 if tier == "quick" else 16, cxx="clang++",
+     units=lambda tier: [Unit("c18", "c18.cpp", TSAN, cases=scale(tier, 300, 6000), shards=8 if tier == "quick" else 16, cxx="clang++",
                               hflags=["-fsanitize=thread"], link_flags=["-fsanitize=thread"], env=TSAN_ENV, timeout=3000)],
      level="exploration",
      rule=("scenarios of 2-8 threads; every thread initialises 1-2 objects of its own (concurrent init = concurrent CPU detection) and "
@@ -521,7 +531,7 @@ def _ard_srcs():
             for f in ("BlockCipher.cpp", "CTR.cpp", "Cipher.cpp", "Crypto.cpp", "Mantis8.cpp", "Skinny128.cpp", "Skinny64.cpp")]
 
 prop("C19",
-     units=lambda tier: [Unit("c19", "c19.cpp", SHIPPED, cases=scale(tier, 2500, 80000), shards=16,
+     units=lambda tier: [Unit("c19", "c19.cpp", SHIPPED, cases=scale(tier, 25000, 400000), shards=16,
                               hflags=lambda: ["-I" + _ard_dir()], hdeps=_ard_headers, ext_srcs=_ard_srcs)],
      level="exploration",
      rule=("per case one of the 11 block-cipher classes (Skinny128_128/256/384, Skinny128_256/384_Tweaked, Skinny64_64/128/192, "
@@ -568,7 +578,7 @@ def _build_tools():
     return ["--tools", out]
 
 prop("C20",
-     units=lambda tier: [Unit("c20", "c20.cpp", SHIPPED, cases=scale(tier, 250, 6000), shards=16, args=_build_tools,
+     units=lambda tier: [Unit("c20", "c20.cpp", SHIPPED, cases=scale(tier, 2500, 40000), shards=16, args=_build_tools,
                               env={"SKV_TMP": skv._mk(os.path.join(skv.BUILD, "tmp"))})],
      level="exploration",
      rule=("process-level cases: tool in {skinny-ctr, skinny-tweak, skinny-ecb} x block size {64, 128; -b given or defaulted} x key of "
